@@ -474,7 +474,7 @@ class DeepCopyMethod(MethodDescriptor):
 
     @staticmethod
     def deepcopy(self, memo):
-        if self.__spec_class__.frozen or self.__spec_class__.do_not_copy:
+        if self.__spec_class__.do_not_copy:
             return self
         new = self.__class__.__new__(self.__class__)
         for attr, value in self.__dict__.items():
